@@ -151,6 +151,8 @@ func exec(op string) (res string) {
 		return execWalk(op)
 	case "first", "firstx":
 		return execFirst(op)
+	case "psess":
+		return execPsess(op)
 	}
 	return "bad-op"
 }
@@ -555,6 +557,9 @@ func main() {
 		extra[k] = v
 	}
 	for k, v := range firstTier(r, out, tier) {
+		extra[k] = v
+	}
+	for k, v := range psessTier(r, out, tier) {
 		extra[k] = v
 	}
 	out.Close(extra)
